@@ -348,6 +348,9 @@ impl World {
     }
 
     fn exec_inner(&mut self, sender: &str, contract: &str, msg: &[u8], funds: &[(String, u128)]) -> Result<Vec<(String, String)>, String> {
+        // bech32 is case-insensitive as a whole: the all-upper-case spelling names the same account
+        let canon = contract.to_ascii_lowercase();
+        let contract: &str = if !self.contracts.contains_key(contract) && !contract.bytes().any(|b| b.is_ascii_lowercase()) && self.contracts.contains_key(&canon) { canon.as_str() } else { contract };
         if !self.contracts.contains_key(contract) {
             return Err(format!("sim:wasm:no such contract {contract}"));
         }
